@@ -45,11 +45,11 @@ SAMPLE_TEXT = (
 
 def cases(ctx):
     rng = ctx.rng
-    for i in range(ctx.per_shard(ctx.pick(160, 8000))):
+    for i in range(ctx.per_shard(ctx.pick(480, 12000))):
         yield {"kind": "reject", "seed": rng.getrandbits(32)}
-    for i in range(ctx.per_shard(ctx.pick(100, 8000))):
+    for i in range(ctx.per_shard(ctx.pick(300, 10000))):
         yield {"kind": "equiv", "seed": rng.getrandbits(32), "child": rng.random() < ctx.pick(0.03, 0.03), "strace": not ctx.quick}
-    for i in range(ctx.per_shard(ctx.pick(24, 1500))):
+    for i in range(ctx.per_shard(ctx.pick(80, 2500))):
         yield {"kind": "defaults", "seed": rng.getrandbits(32)}
 
 
@@ -232,7 +232,11 @@ def fsmon_inside(p, root):
 def gen_accept(rng, src, dst, dump):
     o = {"input": src, "output": dst, "salt": rng.choice(["s1", "saltForTest", "Q-9", "a.b"])}
     feats = set()
-    if rng.random() < 0.7:
+    r = rng.random()
+    if r < 0.2:
+        o["undo"] = True
+        feats.add("ip")
+    elif r < 0.75:
         o["anonymize-ips"] = True
         feats.add("ip")
     if rng.random() < 0.5:
@@ -252,9 +256,9 @@ def gen_accept(rng, src, dst, dump):
             o["preserve-addresses"] = rng.choice(["11.22.33.44", "11.22.33.0/24,8.8.4.4", "10.0.0.0/8"])
         if rng.random() < 0.3:
             o["preserve-private-addresses"] = True
-        if rng.random() < 0.4:
+        if rng.random() < 0.4 and "undo" not in o:
             o["dump-ip-map"] = dump
-    if not any(k in o for k in ("anonymize-ips", "anonymize-passwords", "sensitive-words", "as-numbers")):
+    if not any(k in o for k in ("anonymize-ips", "anonymize-passwords", "sensitive-words", "as-numbers", "undo")):
         o["anonymize-passwords"] = True
     return o
 
